@@ -28,6 +28,7 @@ CONSTANTS
   MaxSetSeq = 0
   MaxShots = 0
   OvfFirstInOpen = TRUE
+  HugeSeals = FALSE
   RecordHist = FALSE
   HistLen = 0
 VIEW CoreView
